@@ -364,6 +364,17 @@ class Summariser:
             if truth:
                 raise _Infeasible()
             return
+        # the singletons are objects, never NULL
+        if key in ('Py_None', 'Py_True', 'Py_False', 'Py_NotImplemented'):
+            if not truth:
+                raise _Infeasible()
+            return
+        # NULL is never one of the singletons: (NULL == Py_None) is false
+        for single in ('Py_None', 'Py_True', 'Py_False', 'Py_NotImplemented'):
+            if key in ('(NULL == %s)' % single, '(%s == NULL)' % single):
+                if truth:
+                    raise _Infeasible()
+                return
         bind = None
         if raw is not None:
             names = sorted({x.a[0] for x in raw.walk() if x.k == 'var'})
@@ -372,7 +383,15 @@ class Summariser:
         if old is not None and old != truth:
             pure = not has_call(resolved)
             same = raw is not None and not has_call(raw) and st.bind.get(key) == bind
-            if pure or same:
+            # both tests read results of calls that ran exactly once on this
+            # path (the call text is the value of that single evaluation, held
+            # in locals): the same value was tested twice
+            once = False
+            if not pure and raw is not None and not has_call(raw):
+                texts = [show(x) for x in resolved.walk() if x.k == 'call']
+                ran = [show(e.e) for e in st.events if e.kind == 'call']
+                once = bool(texts) and all(ran.count(t) == 1 for t in texts)
+            if pure or same or once:
                 raise _Infeasible()
         st.facts[key] = truth
         st.bind[key] = bind
